@@ -81,6 +81,12 @@ type Client struct {
 	pending   map[tag]*response
 	pendingMu sync.Mutex
 
+	// connErr is set (under pendingMu) once recv has reported a connection
+	// error: the stream ended, or a frame whose size field cannot be accepted
+	// was left unread. Nothing more can be received in step with the peer;
+	// calls made afterwards fail with this error instead of reading on.
+	connErr error
+
 	// sendMu is the lock for sending a request.
 	sendMu sync.Mutex
 
@@ -254,6 +260,9 @@ func (c *Client) handleOne() {
 		//
 		// Likely catastrophic. Notify all waiters and clear pending.
 		c.pendingMu.Lock()
+		if _, ok := err.(ConnError); ok && c.connErr == nil {
+			c.connErr = err
+		}
 		for _, resp := range c.pending {
 			resp.done <- err
 		}
@@ -325,6 +334,10 @@ func (c *Client) sendRecv(tm message, rm message) error {
 	defer responsePool.Put(resp)
 	resp.r = rm
 	c.pendingMu.Lock()
+	if err := c.connErr; err != nil {
+		c.pendingMu.Unlock()
+		return fmt.Errorf("wait: %w", err)
+	}
 	c.pending[tag(t)] = resp
 	c.pendingMu.Unlock()
 
